@@ -119,6 +119,26 @@ def serve (codec : String → Codec) (cfg : Cfg) (r : Request) : Outcome :=
     | none => .rejected Compression.rejectStatus               -- reader constructor failed
     | some s => .handled (limitRead cfg.limit s)                -- MaxBytesReader over the decoded stream
 
+/-! ## how a handler consumes the body -/
+
+/-- the handler's way of reading `r.Body` -/
+inductive ReadMode
+  | all                 -- to the end (in one go or in chunks of any size: same bytes)
+  | upTo (k : Nat)      -- at most `k` bytes (`io.ReadFull` into a `k`-byte buffer)
+  | none                -- not at all
+deriving DecidableEq, Repr
+
+/-- what the handler has in hand afterwards: a prefix of what the body yields; an error only if it was reached -/
+def handlerReads (m : ReadMode) (s : Stream) : Stream :=
+  match m with
+  | .all => s
+  | .upTo k => if k ≤ s.data.length then ⟨s.data.take k, true⟩ else s
+  | .none => ⟨[], true⟩
+
+def Outcome.read (m : ReadMode) : Outcome → Outcome
+  | .handled s => .handled (handlerReads m s)
+  | o => o
+
 /-! ## `WithDecoder` and process-level state -/
 
 /-- a server as `ToServer` builds it: effective settings + the decoders registered with `WithDecoder`
